@@ -350,3 +350,29 @@ PROPS = {
                      fuzz("FuzzC20", 120)],
     },
 }
+
+# Later extensions of the generators and oracles (sections 13 and 14 of DESIGN.md), appended to the rules.
+_ADDENDA = {
+    "C01": "later extensions: regexp stages built from pieces (named groups in optional parts and alternation branches), twin and repeated records, records with equal labels share one attribute map in the mock storage (a write into it is reported), IPv6 addresses with every hexadecimal letter",
+    "C02": "later extensions: regexes with the user's own anchors around an alternation, the same label named twice; a logfmt / regexp / label_format stage after the selector that, on every third line, writes labels named like the container's own (every line is checked against its container's labels overlaid with its own pairs); metric queries that add a second aggregation over another selection (reads compared as a multiset); the fake daemon honours list filters and All; the daemon window must cover the needed interval to the second and be at most a minute wider",
+    "C03": "later extensions: messages of exactly / one less / one more than 4, 16, 32 and 64 KiB with and without a final line break; half of the streams are sequential logs whose neighbours share a second, in the daemon's fixed-width spelling; a fault that replaces one character of a well-formed timestamp (a sign in a numeric field, a wrong separator, another digit); empty and timestamp-only frames",
+    "C04": "later extensions: a third of the cases first run 1-3 SelectLogs calls over container subsets on the same Querier (each merged stream must be its own selection); a quarter give containers several names",
+    "C05": "later extensions: operands that are bare operations binding strictly tighter than their parent (drawn deliberately one level up), templates over the whole function table, CR in raw strings, k with leading zeros",
+    "C06": "later extensions: a line of another shape under a pattern stage must stay unchanged; nested keys that are empty or look like indexes, JSON paths with a selector of the wrong type",
+    "C07": "later extensions: alignLeft/alignRight, replace, trimPrefix/trimSuffix, b64enc, contains, regexReplaceAll(Literal), count, unixEpochMillis in the template grammar; record-dependently failing templates; a quarter of the cases put a json parser stage in front (labels from JSON numbers and booleans); C1 CSI colour sequences",
+    "C08": "later extensions: twin records (an empty value against a missing label), repeated records (same timestamp, line and labels), packed lines",
+    "C09": "later extensions: ranges reaching before 1970, infinite samples, quantile parameters above 1",
+    "C10": "later extensions: planted label-set pairs (swapped values, an empty value against a missing label), up to three grouping levels incl. clauses that keep no label",
+    "C11": "later extensions: chains of 2-4 grouping levels that all name one label in every by/without order; validity predicates allow the model's error bound",
+    "C12": "later extensions: scalars that are exactly the value of some series, sides that are vector(c) or filled with 'or vector(c)', operands that are parenthesised divisions/modulos by a literal (NaN meets the outer operator); every point is compared within the model's propagated error bound, points the bound cannot decide are compared for presence only",
+    "C13": "later extensions: bare scalar literal operands where the engine supports the expression, and ((x op a) op b) op c with explicit parentheses",
+    "C14": "later extensions: metric shapes evaluated over a grid or at one instant; malformed JSON paths from a pool; constructs the engine does not implement (absent_over_time, label_replace) may fail or succeed",
+    "C15": "later extensions: any foreground colour code counts as a palette colour",
+    "C16": "later extensions: an explicit zero --since; ranges that are a multiple of 250s give or take a fraction of a second; when --start is written as fractional seconds every millisecond of its second is tried; the end-to-end window may be a few seconds wider",
+    "C17": "later extensions: queries written for their data and evaluated on grids with a step far above or below the range; templates over the whole function table; regexps with optional named groups; ip() filters over address-like garbage; huge k",
+    "C18": "later extensions: generated nestings of integer-valued aggregations over the same labels, NaN inputs of aggregations, limits cutting through cross-container ties; a wave of opens that does not fill up switches the completion-order gating off (class completion-order-not-owned) instead of failing",
+    "C19": "later extensions: typed comparisons (number, duration, bytes, ip) as f, g, a, b, often over values that do not convert (negation partition only for filters that have a negation); (?i) literals paired with lines of special case folding; composite JSON labels",
+    "C20": "later extensions: the letter range ends a, z, A, Z in the exhaustive alphabet and their ASCII neighbours in the random pool; keys spelled like container attributes; the fake daemon honours list filters; '| json' after the stage has seen hundreds of other keys",
+}
+for _k, _v in _ADDENDA.items():
+    PROPS[_k]["rule"] = PROPS[_k]["rule"] + "; " + _v
